@@ -289,6 +289,68 @@ pub fn render_running(policies: &[RunningPolicy], dup_xmlns: bool) -> String {
     s
 }
 
+/// The running configuration of the model router as a get-config reply body: besides the policy
+/// statements it holds other configuration (version, system, prefix-lists, communities,
+/// protocols), and the request's subtree filter decides what of it is returned - as on a real
+/// router, no filter means everything. Filter semantics (RFC 6241 section 6, as far as the
+/// structure of this configuration needs it): elements are matched by local name; an empty
+/// element selects the whole subtree; an element with children contains only what they select;
+/// `<policy-statement><name>X</name></policy-statement>` selects the statement named X.
+pub fn render_running_filtered(policies: &[RunningPolicy], dup_xmlns: bool, filter: Option<&crate::xml::Elem>) -> String {
+    let open = format!("<configuration xmlns=\"{XNM}\" junos:commit-seconds=\"1709120869\" junos:commit-localtime=\"2024-02-28 11:47:49 UTC\" junos:commit-user=\"op\">");
+    let version = "<version>23.1R1.8</version>";
+    let system = "<system><host-name>r1</host-name><services><netconf><ssh></ssh></netconf></services></system>";
+    let prefix_list = "<prefix-list><name>pl-loopbacks</name><prefix-list-item><name>192.0.2.0/24</name></prefix-list-item></prefix-list>";
+    let community = "<community><name>c-blackhole</name><members>65000:666</members></community>";
+    let protocols = "<protocols><bgp><group><name>peers</name><import>fltr-foo</import></group></bgp></protocols>";
+    let statements = |only: Option<&str>| -> String { policies.iter().filter(|p| only.map_or(true, |n| p.name == n)).map(|p| render_running_policy(p, dup_xmlns)).collect() };
+    let Some(filter) = filter else {
+        return format!("{open}{version}{system}<policy-options>{prefix_list}{}{community}</policy-options>{protocols}</configuration>", statements(None));
+    };
+    if filter.attr("type").is_some_and(|t| t != "subtree") {
+        return format!("{open}</configuration>");
+    }
+    let mut body = String::new();
+    for top in filter.elems() {
+        if top.local != "configuration" {
+            continue;
+        }
+        if top.elems().next().is_none() {
+            // <configuration/> selects everything
+            return render_running_filtered(policies, dup_xmlns, None);
+        }
+        for sect in top.elems() {
+            match sect.local.as_str() {
+                "version" => body.push_str(version),
+                "system" => body.push_str(system),
+                "protocols" => body.push_str(protocols),
+                "policy-options" => {
+                    let mut inner = String::new();
+                    if sect.elems().next().is_none() {
+                        let _ = write!(inner, "{prefix_list}{}{community}", statements(None));
+                    }
+                    for k in sect.elems() {
+                        match k.local.as_str() {
+                            "prefix-list" => inner.push_str(prefix_list),
+                            "community" => inner.push_str(community),
+                            "policy-statement" => match k.child("name") {
+                                Some(n) => inner.push_str(&statements(Some(n.text().trim()))),
+                                None => inner.push_str(&statements(None)),
+                            },
+                            _ => {}
+                        }
+                    }
+                    if !inner.is_empty() {
+                        let _ = write!(body, "<policy-options>{inner}</policy-options>");
+                    }
+                }
+                _ => {}
+            }
+        }
+    }
+    format!("{open}{body}</configuration>")
+}
+
 pub fn render_ephemeral(db: &EphDb) -> String {
     let mut s = format!("<configuration xmlns=\"{XNM}\" junos:changed-seconds=\"1709120869\" junos:changed-localtime=\"2024-02-28 11:47:49 UTC\">");
     if !db.is_empty() {
@@ -569,7 +631,7 @@ impl Junos {
             "get-config" => {
                 let src = op.child("source").and_then(|s| s.elems().next()).map(|e| e.local.clone()).unwrap_or_default();
                 match src.as_str() {
-                    "running" => Ok(format!("<data>{}</data>", render_running(&self.running, self.dup_xmlns))),
+                    "running" => Ok(format!("<data>{}</data>", render_running_filtered(&self.running, self.dup_xmlns, op.child("filter")))),
                     "candidate" => match &self.sessions[sid].open {
                         Some((_, db)) => Ok(format!("<data>{}</data>", render_ephemeral(db))),
                         None => Err("no configuration database open".into()),
